@@ -4,4 +4,5 @@ INVARIANT RoundTripJson
 INVARIANT PlainJson
 INVARIANT KeysAreFields
 INVARIANT PlainLinesReadable
+INVARIANT PlainTyped
 CHECK_DEADLOCK FALSE
